@@ -47,31 +47,50 @@ def _field_of(e):
     return None
 
 
+def _for_of(body, node):
+    """innermost For whose body contains node"""
+    best = None
+    for f in walk(body):
+        if f.get("k") == "For" and any(x is node for x in walk(f["body"])):
+            best = f
+    return best
+
+
+def _fields_in(defs, e):
+    return {x.get("name") for x in defs.closure(e) if x.get("k") == "Field"}
+
+
 def _scatter_sites(body):
-    """Assignments X[ self.MAP[i] ] = rhs  ->  (map field, inner index local name, rhs, enclosing For)"""
+    """Indexed stores whose index is computed (through local definitions / loop bindings) from an index-map field.
+    -> (map field, index-source description, rhs, enclosing For, assign node)"""
+    from facts import Defs
+    defs = Defs(body)
     out = []
-    fors = [x for x in walk(body) if x.get("k") == "For"]
-    for f in fors:
-        for x in walk(f["body"]):
-            if x.get("k") == "Assign" and x["lhs"].get("k") == "Index":
+    for x in walk(body):
+        if x.get("k") == "Assign" and x["lhs"].get("k") == "Index":
+            fl = [n for n in _fields_in(defs, x["lhs"]["i"]) if n and "map" in n]
+            if fl:
+                f = _for_of(body, x)
                 idx = strip(x["lhs"]["i"])
-                if idx.get("k") == "Index":
-                    out.append((_field_of(idx["e"]), (local_of(idx["i"]) or (None, None))[1], x["rhs"], f, x))
+                inner = (local_of(idx["i"]) or (None, None))[1] if idx.get("k") == "Index" else "<bound by the loop>"
+                out.append((fl[0], inner, x["rhs"], f, x))
     return out
 
 
 def _gather_sites(body):
-    """Assignments out[i] = T[ self.MAP[i] ]"""
+    """Indexed loads out[i] = T[...] whose source index is computed from an index-map field."""
+    from facts import Defs
+    defs = Defs(body)
     out = []
-    for f in [x for x in walk(body) if x.get("k") == "For"]:
-        for x in walk(f["body"]):
-            if x.get("k") == "Assign" and x["lhs"].get("k") == "Index":
-                rhs = strip(x["rhs"])
-                if rhs.get("k") == "Index":
+    for x in walk(body):
+        if x.get("k") == "Assign" and x["lhs"].get("k") == "Index":
+            rhs = strip(x["rhs"])
+            if rhs.get("k") == "Index":
+                fl = [n for n in _fields_in(defs, rhs["i"]) if n and "map" in n]
+                if fl:
                     inner = strip(rhs["i"])
-                    if inner.get("k") == "Index":
-                        out.append((_field_of(inner["e"]), (local_of(inner["i"]) or (None, None))[1],
-                                    (local_of(x["lhs"]["i"]) or (None, None))[1], f, x))
+                    iv = (local_of(inner["i"]) or (None, None))[1] if inner.get("k") == "Index" else "<bound by the loop>"
+                    out.append((fl[0], iv, (local_of(x["lhs"]["i"]) or (None, None))[1], _for_of(body, x), x))
     return out
 
 
@@ -102,22 +121,27 @@ def run_c11(facts, rep):
         rep.fn(x)
     sc = _scatter_sites(facts.hir[enc])
     ga = _gather_sites(facts.hir[dec])
-    rep.floor(R, "scatter sites in encode", len(sc), 2)
+    rep.floor(R, "scatter sites in encode", len(sc), 1)
     if not ga:
         rep.violation(R, "scatter-gather", "decode no longer loads out[i] from temp[MAP[i]] through an index-map field "
                       "while encode scatters through `%s`: decode is not the inverse of encode" %
                       (sc[0][0] if sc else "?"), facts.loc(dec))
     if not sc or not ga:
         return
-    val = [s for s in sc if strip(s[2]).get("k") == "Index"]
+    from facts import Defs
+    edefs = Defs(facts.hir[enc])
+    val = [s for s in sc if any(x.get("k") == "Path" and x.get("name") == "values" for x in edefs.closure(s[2]))]
     zer = [s for s in sc if strip(s[2]).get("k") == "Lit"]
     g = ga[0]
     # scatter/gather agreement
     for s in val:
         key = "scatter-gather"
-        src_idx = (local_of(strip(s[2])["i"]) or (None, None))[1]
-        conds = [s[0] is not None and s[0] == g[0], s[1] == _loop_var(s[3]), src_idx == _loop_var(s[3]),
-                 g[1] == _loop_var(g[3]) and g[2] == _loop_var(g[3])]
+        r2 = strip(s[2])
+        src_idx = (local_of(r2["i"]) or (None, None))[1] if r2.get("k") == "Index" else "<bound by the loop>"
+        lv = _loop_var(s[3]) if s[3] is not None else None
+        same_iter = (s[1] == src_idx) and (lv is None or s[1] in (lv, "<bound by the loop>"))
+        conds = [s[0] is not None and s[0] == g[0], same_iter,
+                 g[3] is not None and g[1] in (_loop_var(g[3]), "<bound by the loop>") and g[2] == _loop_var(g[3])]
         if all(conds):
             rep.ok(R, key, "encode: data[%s[i]] = values[i]; decode: out[i] = temp[%s[i]] — same map, same index" %
                    (s[0], g[0]), facts.loc(enc, s[4]), sample={"map": s[0], "encode_line": s[4].get("l"), "decode_line": g[4].get("l")})
@@ -130,9 +154,10 @@ def run_c11(facts, rep):
     # zero fill of the tail
     if zer:
         z = zer[0]
-        lo, hi = _range_of(z[3])
+        lo, hi = _range_of(z[3]) if z[3] is not None else (None, None)
         v0 = val[0] if val else None
-        lo_ok = v0 is not None and lo is not None and same_expr(strip(lo), strip(_range_of(v0[3])[1]))
+        names_lo = {x.get("name") for x in edefs.closure(lo)} if lo is not None else set()
+        lo_ok = lo is not None and strip(lo).get("k") != "Bin" and ("value_size" in names_lo or "values" in names_lo)
         hi_ok = hi is not None and _field_of(hi) == "slots"
         if z[0] == (v0[0] if v0 else None) and z[1] == _loop_var(z[3]) and lo_ok and hi_ok:
             rep.ok(R, "zero-fill", "tail value_size..slots is zero-filled through the same map", facts.loc(enc, z[4]))
@@ -140,8 +165,14 @@ def run_c11(facts, rep):
             rep.violation(R, "zero-fill", "the zero-fill loop of encode does not cover value_size..slots through the "
                           "same index map: short inputs are not zero-padded", facts.loc(enc, z[4]))
     else:
-        rep.violation(R, "zero-fill", "encode has no loop storing 0 through the index map: slots beyond the input "
-                      "keep stale destination data (short inputs are not zero-padded)", facts.loc(enc))
+        whole = [x for x in walk(facts.hir[enc]) if x.get("k") == "MCall" and x.get("name") == "fill" and x["args"]
+                 and strip(x["args"][0]).get("v") == "0" and (root_local(x["recv"]) or (0, ""))[1] == "destination"]
+        if whole:
+            rep.ok(R, "zero-fill", "the whole destination buffer is zero-filled before the scatter", facts.loc(enc, whole[0]))
+        else:
+            rep.violation(R, "zero-fill", "encode has no loop storing 0 through the index map (and no whole-buffer fill(0)): "
+                          "slots beyond the input keep stale destination data (short inputs are not zero-padded)",
+                          facts.loc(enc))
     # transform pair
     def transform_calls(p):
         out = []
